@@ -243,6 +243,9 @@ class HistoryScenario(explore.Scenario):
         evs = []
         if w.adds < self.params['max_adds']:
             evs += [('add', i) for i in range(len(SPECS))]
+            # the bus refuses the rule (limits exceeded): nothing is
+            # registered, the callback never runs
+            evs += [('addfail', i) for i in range(len(SPECS))]
         evs += [('del', rid) for rid in sorted(w.live)]
         evs += [('route', j) for j in range(len(ROUTE))]
         return evs
@@ -256,7 +259,7 @@ class HistoryScenario(explore.Scenario):
         conn = w.cw.conn
         viol = []
         try:
-            if ev[0] == 'add':
+            if ev[0] in ('add', 'addfail'):
                 spec = SPECS[ev[1]]
                 tag = w.adds
                 w.adds += 1
@@ -282,6 +285,18 @@ class HistoryScenario(explore.Scenario):
                         'AddMatch':
                     return [('%s/history/addmatch-call' % PROP,
                              'addMatch wrote %r' % (msgs,))]
+                if ev[0] == 'addfail':
+                    w.bus_serial += 1
+                    w.cw.conn.dataReceived(R.encode_message(
+                        R.ERROR, w.bus_serial,
+                        {'reply_serial': msgs[0]['serial'], 'error_name':
+                         'org.freedesktop.DBus.Error.LimitsExceeded'}, 's',
+                        ['too many rules']))
+                    if len(got) != 1 or isinstance(got[0], int):
+                        return [('%s/history/addmatch-refused-result' % PROP,
+                                 'the bus refused AddMatch; the addMatch '
+                                 'Deferred gave %r' % (got,))]
+                    return viol
                 self._reply(w, msgs[0]['serial'])
                 if len(got) != 1 or not isinstance(got[0], int):
                     return [('%s/history/addmatch-result' % PROP,
